@@ -122,6 +122,10 @@ mod replay {
         Task(u64),
         Os(u64),
     }
+    fn debug() -> bool {
+        static D: std::sync::OnceLock<bool> = std::sync::OnceLock::new();
+        *D.get_or_init(|| std::env::var("KVH_C10_DEBUG").is_ok())
+    }
     fn hash_id<T: std::hash::Hash>(t: &T) -> u64 {
         use std::hash::Hasher;
         let mut h = std::collections::hash_map::DefaultHasher::new();
@@ -154,6 +158,8 @@ mod replay {
     struct Inner {
         threads: HashMap<Tid, Th>,
         roles: HashMap<Role, Tid>,
+        has_role: std::collections::HashSet<Tid>,
+        unscheduled: u64, // arrivals of threads that are none of the model's threads
         free: bool,
         caller_reg: HashMap<u64, usize>, // os thread -> caller index
         verdict_panic: HashMap<u16, bool>, // peer port -> panic?
@@ -161,10 +167,15 @@ mod replay {
     pub struct Ctl {
         inner: Mutex<Inner>,
         cv: Condvar,
+        /// name of every thread of this run (runtime workers, blocking pool, callers)
+        thread_name: String,
     }
+    static RUN_COUNTER: AtomicU32 = AtomicU32::new(0);
+    const THREAD_PREFIX: &str = "kvh-c10-";
     impl Ctl {
         fn new() -> Arc<Self> {
-            Arc::new(Ctl { inner: Mutex::new(Inner::default()), cv: Condvar::new() })
+            let n = RUN_COUNTER.fetch_add(1, Ordering::Relaxed);
+            Arc::new(Ctl { inner: Mutex::new(Inner::default()), cv: Condvar::new(), thread_name: format!("{THREAD_PREFIX}{n}") })
         }
         /// called from the instrumented code (and from the handler)
         fn arrive(&self, name: &'static str, val: i64) {
@@ -173,8 +184,15 @@ mod replay {
             if !matches!(name.split('.').next(), Some("al" | "ap" | "co" | "ct" | "rm" | "sh" | "hd")) {
                 return;
             }
+            // The hook is process-wide: a thread left over from an earlier run of this process (its runtime is
+            // shut down with a timeout, blocked threads outlive it) is not part of this run.
+            if let Some(n) = std::thread::current().name() {
+                if n.starts_with(THREAD_PREFIX) && n != self.thread_name {
+                    return;
+                }
+            }
             let tid = current_tid();
-            if std::env::var("KVH_C10_DEBUG").is_ok() { eprintln!("arrive {name} {val} {tid:?}"); }
+            if debug() { eprintln!("arrive {name} {val} {tid:?}"); }
             let mut g = self.inner.lock().unwrap();
             // role assignment by the first point a thread reaches
             let role = match name {
@@ -188,7 +206,20 @@ mod replay {
                 _ => None,
             };
             if let Some(r) = role {
-                g.roles.entry(r).or_insert(tid);
+                if !g.roles.contains_key(&r) && !g.has_role.contains(&tid) {
+                    g.roles.insert(r, tid);
+                    g.has_role.insert(tid);
+                }
+            }
+            // A thread that is none of the model's threads (e.g. `RunConfig::execute` itself touching the
+            // count) is not scheduled: nobody would ever release it. It passes; what it did to the shared
+            // state shows in the next observation.
+            if !g.has_role.contains(&tid) {
+                if !g.free {
+                    g.unscheduled += 1;
+                    if debug() { eprintln!("STRAY {name} {val} {tid:?}"); }
+                }
+                return;
             }
             let free = g.free;
             let th = g.threads.entry(tid).or_default();
@@ -264,6 +295,9 @@ mod replay {
         }
         fn known(&self, role: Role) -> bool {
             self.inner.lock().unwrap().roles.contains_key(&role)
+        }
+        fn unscheduled(&self) -> u64 {
+            self.inner.lock().unwrap().unscheduled
         }
         fn set_free(&self) {
             self.inner.lock().unwrap().free = true;
@@ -391,7 +425,7 @@ mod replay {
     impl Run {
         fn start(p: Params) -> Option<Run> {
             let ctl = Ctl::new();
-            let rt = tokio::runtime::Builder::new_multi_thread().worker_threads(4).max_blocking_threads(64).enable_all().build().ok()?;
+            let rt = tokio::runtime::Builder::new_multi_thread().worker_threads(4).max_blocking_threads(64).thread_name(ctl.thread_name.clone()).enable_all().build().ok()?;
             let mut ports = Vec::new();
             for _ in 0..p.nl {
                 let mut port = next_port();
@@ -460,13 +494,14 @@ mod replay {
                 let mgr = Arc::clone(&run.mgr);
                 let handle = run.rt.handle().clone();
                 let (tx, rx) = std::sync::mpsc::channel();
-                run.caller_threads.push(std::thread::spawn(move || {
+                let name = run.ctl.thread_name.clone();
+                run.caller_threads.push(std::thread::Builder::new().name(name).spawn(move || {
                     let _enter = handle.enter();
                     let me = hash_id(&std::thread::current().id());
                     ctl.inner.lock().unwrap().caller_reg.insert(me, k);
                     let _ = tx.send(());
                     mgr.shutdown();
-                }));
+                }).ok()?);
                 let _ = rx.recv_timeout(STEP_TIMEOUT);
                 run.ctl.at(Role::Caller(k), STEP_TIMEOUT)?;
             }
@@ -975,7 +1010,7 @@ mod replay {
 
     pub fn replay(p: impl Fn() -> Params, sched: &[(u8, usize)]) -> X {
         for _attempt in 0..8 {
-            let mut run = match Run::start(p()) { Some(r) => r, None => { if std::env::var("KVH_C10_DEBUG").is_ok() { eprintln!("start failed"); } continue } };
+            let mut run = match Run::start(p()) { Some(r) => r, None => { if debug() { eprintln!("start failed"); } continue } };
             let mut obs = Vec::new();
             let mut fail = None;
             for (n, lb) in sched.iter().enumerate() {
@@ -987,13 +1022,19 @@ mod replay {
                     }
                 }
             }
+            // accesses to the manager by a thread that is none of the model's threads: not a run of the model
+            let stray = run.ctl.unscheduled();
+            if stray > 0 {
+                if debug() { eprintln!("{stray} unscheduled arrivals"); }
+                obs.push(X::L(vec![X::N(79)]));
+            }
             match fail {
                 None => {
                     let fin = run.finish();
                     return X::L(vec![X::L(obs), fin]);
                 }
                 Some(Fail::Diverged) => {
-                    if std::env::var("KVH_C10_DEBUG").is_ok() { eprintln!("diverged at {}", obs.len()); }
+                    if debug() { eprintln!("diverged at {}", obs.len()); }
                     run.abort();
                     continue;
                 }
